@@ -2,11 +2,12 @@
   L0 kernel `InitDirs` — the default (coordinate) initialisation of the interpolation set,
   bound-constrained branch without projections and without `init.run_in_parallel`:
 
-    solver.py:1099-1108       x0 clamped into [xl, xu]
-    model.py:71-73            xbase = x0, sl = xl - xbase, su = xu - xbase
-    controller.py:254-255     at_lower_boundary / at_upper_boundary (threshold 0.01*delta)
-    controller.py:289-325     the step table xpts_added[k, :], k = 1 … num_directions
-    controller.py:347-350     swap of rows k and k-n of the table (objective dependent)
+  (line numbers: /repo at commit 25b8a47)
+    solver.py:1107-1116       x0 clamped into [xl, xu]
+    model.py:70-74            xbase = x0, sl = xl - xbase, su = xu - xbase
+    controller.py:255-256     at_lower_boundary / at_upper_boundary (threshold 0.01*delta)
+    controller.py:290-326     the step table xpts_added[k, :], k = 1 … num_directions
+    controller.py:348-351     swap of rows k and k-n of the table (objective dependent)
     model.py:157-162          as_absolute_coordinates = min(max(xl, xbase + min(max(sl, x), su)), xu)
                               (the outer clip was added by the `fix:` commit for C01; `asAbsOld` is the pinned formula)
 
@@ -15,7 +16,7 @@
   bit) and is instantiated at a linearly ordered field in `Proofs/InitDirs.lean`.
 
   Vectors are functions `Nat → α` (index ↦ component) together with the dimension `n`; the driver
-  converts to and from lists.  The only objective-dependent decision (the swap at lines 347-350,
+  converts to and from lists.  The only objective-dependent decision (the swap at lines 348-351,
   `objval[k] < objval[k-n]`) is an INPUT: `lt i` is the outcome of that comparison for coordinate `i`
   (k = n+1+i), so the function stays pure.
 -/
@@ -34,7 +35,7 @@ def npmin (a b : α) : α := if a < b then a else b
 /-- `np.maximum(a, b)` on non-NaN doubles. -/
 def npmax (a b : α) : α := if b < a then a else b
 
-/-- solver.py:1099-1108, one coordinate: `x0[x0 < xl] = xl; x0[x0 > xu] = xu` (in this order). -/
+/-- solver.py:1107-1116, one coordinate: `x0[x0 < xl] = xl; x0[x0 > xu] = xu` (in this order). -/
 def clampX0 (x l u : α) : α :=
   let x1 := if x < l then l else x
   if u < x1 then u else x1
@@ -50,22 +51,22 @@ def asAbsOld (xbase sl su x : α) : α := xbase + clip sl su x
     `np.minimum(np.maximum(xl, xbase + np.minimum(np.maximum(sl, x), su)), xu)`. -/
 def asAbs (xl xu xbase sl su x : α) : α := npmin (npmax xl (xbase + clip sl su x)) xu
 
-/-- controller.py:254  `sl > -0.01 * delta`. -/
+/-- controller.py:255  `sl > -0.01 * delta`. -/
 def atLower (delta sl : α) : Bool := decide ((-(0.01 : α)) * delta < sl)
-/-- controller.py:255  `su < 0.01 * delta`. -/
+/-- controller.py:256  `su < 0.01 * delta`. -/
 def atUpper (delta su : α) : Bool := decide (su < (0.01 : α) * delta)
 
-/-- controller.py:296  first step along a coordinate: `delta if not at_upper else -delta`. -/
+/-- controller.py:297  first step along a coordinate: `delta if not at_upper else -delta`. -/
 def step1 (delta su : α) : α := if atUpper delta su then -delta else delta
 
-/-- controller.py:303-309  second step along a coordinate (both `if`s are executed in this order). -/
+/-- controller.py:304-310  second step along a coordinate (both `if`s are executed in this order). -/
 def step2 (delta sl su : α) : α :=
   let b := -delta
   let b := if atLower delta sl then pymin ((2.0 : α) * delta) su else b
   let b := if atUpper delta su then pymax ((-(2.0 : α)) * delta) sl else b
   b
 
-/-- controller.py:349  `stepa * stepb < 0.0 and objval[k] < objval[k-n]`;
+/-- controller.py:350  `stepa * stepb < 0.0 and objval[k] < objval[k-n]`;
     `lt` is the recorded outcome of the objective comparison. -/
 def swapped (delta sl su : α) (lt : Bool) : Bool :=
   decide (step1 delta su * step2 delta sl su < (0.0 : α)) && lt
@@ -76,7 +77,7 @@ def rowFinal (delta sl su : α) (lt : Bool) : α :=
 
 end
 
-/-- controller.py:318-322  the two coordinates (1-based `p`, `q`) combined at step `k > 2n`. -/
+/-- controller.py:319-323  the two coordinates (1-based `p`, `q`) combined at step `k > 2n`. -/
 def pairIdx (n k : Nat) : Nat × Nat :=
   let itemp := (k - n - 1) / n
   let q := k - itemp * n - n
@@ -86,7 +87,7 @@ def pairIdx (n k : Nat) : Nat × Nat :=
 section
 variable {α : Type} [Add α] [Sub α] [Mul α] [Neg α] [LT α] [DecidableLT α] [OfScientific α]
 
-/-- component `j` of `xpts_added[k, :]` at the moment it is evaluated (controller.py:289-325),
+/-- component `j` of `xpts_added[k, :]` at the moment it is evaluated (controller.py:290-326),
     for `k ≥ 1`; `sl su` are the relative bounds, `lt i` the swap oracle of coordinate `i`. -/
 def relPoint (n : Nat) (delta : α) (sl su : Nat → α) (lt : Nat → Bool) (k j : Nat) : α :=
   if k < n + 1 then
@@ -95,16 +96,16 @@ def relPoint (n : Nat) (delta : α) (sl su : Nat → α) (lt : Nat → Bool) (k 
     if j = k - n - 1 then step2 delta (sl j) (su j) else (0.0 : α)
   else
     let pq := pairIdx n k
-    -- lines 324-325: column p-1 is written first, then column q-1
+    -- lines 325-326: column p-1 is written first, then column q-1
     if j = pq.2 - 1 then rowFinal delta (sl j) (su j) (lt j)
     else if j = pq.1 - 1 then rowFinal delta (sl j) (su j) (lt j)
     else (0.0 : α)
 
 /-- clamped starting point = `xbase` -/
 def xbase (x0 xl xu : Nat → α) (j : Nat) : α := clampX0 (x0 j) (xl j) (xu j)
-/-- model.py:72 -/
-def slOf (x0 xl xu : Nat → α) (j : Nat) : α := xl j - xbase x0 xl xu j
 /-- model.py:73 -/
+def slOf (x0 xl xu : Nat → α) (j : Nat) : α := xl j - xbase x0 xl xu j
+/-- model.py:74 -/
 def suOf (x0 xl xu : Nat → α) (j : Nat) : α := xu j - xbase x0 xl xu j
 
 /-- component `j` of the `k`-th point handed to the objective (k = 0: the clamped x0 itself;
